@@ -86,12 +86,14 @@ PROPS["C09"] = {
     "runs": [run("TestC09", (12000, 8), (250000, 16))],
     "rule": "cases = scoring rule sets (2..7 rules in any phase; targets matching 0..k request values; setvar +N/-N/+%{tx.w}, assignments, "
             "deletions, flag form, keys built from %{rule.id} and %{MATCHED_VAR_NAME}; severity; msg/logdata macros; chains; multiMatch with "
-            "transformations that may return their input (length, urlDecode, hexEncode), match data compared as multisets; "
+            "transformations that may return their input (length, urlDecode, hexEncode), match data compared as multisets; setvar names made of "
+            "one macro; a capturing @rx rule over the values of one name whose groups take part in some matches only, with actions copying %{tx.0-2}; "
             "threshold rules on TX:score / TX:acc) x requests with repeated and case-variant argument names; oracle = reference evaluator "
             "(final TX map, fired ids, match data, interruption, HIGHEST_SEVERITY, message expansion) and the accounting identity "
             "tx.acc == sum(increment x observed matches); non-trivial = some rule carrying actions matched >= 2 values; distinct = distinct encodings",
     "essential": {"all": ["rule>=2-matches", "chain-starter>=2-matches", "multimatch>=2-matches", "macro-key", "signed-macro-operand", "threshold-rule-blocked",
-                          "severity-set", "accounting-identity-checked", "msg-macro-checked", "engine:DetectionOnly", "on-recycled-transaction"]},
+                          "severity-set", "accounting-identity-checked", "msg-macro-checked", "engine:DetectionOnly", "on-recycled-transaction",
+                          "captures-read-by-actions", "setvar-name-from-a-macro"]},
     "assumptions": COMMON_ASSUME + [
         "order-sensitive effects over several matches (assigning %{MATCHED_VAR}) and arithmetic on non-numeric values are not generated",
         "MATCHED_VAR* macros inside SecAction are not generated (undocumented)",
